@@ -34,6 +34,13 @@ theorem spawned_closures_call_only_recovering_functions :
 theorem every_task_is_awaited :
     wgAdds = [("__resolve_entities", "len(repsMap)"), ("resolveEntityGroup", "len(reps)")] := by decide
 
+/-- a spawned goroutine signals its WaitGroup only after it has recorded its outcome (`list[rep.index] = entity` /
+`ec.Error`): `Done()` is the closure's last statement (no `return` before it) or deferred - so `Wait()` returning
+happens-after every write and every error, and the response is built from the finished list (the model's `runE`
+folds ALL effects before the list is read). -/
+theorem outcome_recorded_before_done :
+    doneLast = [("__resolve_entities", true), ("resolveEntityGroup", true)] := by decide
+
 /-- single mode chooses the resolver from the representation being resolved (`selectResolver e rep`) -/
 theorem single_resolver_chosen_from_own_representation :
     singleSelectArg ≠ [] ∧ ∀ x ∈ singleSelectArg, x.2 = "rep" := by decide
